@@ -394,3 +394,52 @@ class SetItemArray(SetItem):
 
 
 ALL += ["SetItem", "SetItemArray"]
+
+
+class ArrayCopy(Contract):
+    """x.copy(): independent data (C16: 'copy() ... return independent data'), same numbers, dtype, unit, class and
+    name; the original is untouched (C18)"""
+    name = "unyt.array.unyt_array.copy"
+    properties = ("C16", "C18", "C11")
+    callsite_disabled = True
+    xcls = "unyt_array"
+
+    def formals(self, it):
+        x = N.make_unyt_array(it, "self", cls=self.xcls)
+        if self.xcls == "unyt_quantity":
+            it.assume(to_z3(N.arr_scalar(x)))
+        return {"self": x}
+
+    def requires(self, it, a):
+        k = to_z3(N.arr_kind(a.self))
+        return [("numeric data", z3.Or(k == N.sv("f"), k == N.sv("i"), k == N.sv("u"), k == N.sv("c")))]
+
+    def snapshot(self, it, a):
+        d = snapshot_array(a.self)
+        d["name"] = a.self.fields.get("name")
+        return d
+
+    def ensures(self, it, a, r, old):
+        if not N.is_unyt_array(r):
+            return [("the copy is a unyt object", False)]
+        return [("C16: the copy owns fresh memory", N.arr_buf(r) is not old["buf"]),
+                ("C16/C11: same numbers", True if N.arr_elem(r) is old["elem"] else to_real(N.arr_elem(r)) == to_real(old["elem"])),
+                ("C11: same dtype", z3.And(to_z3(N.arr_kind(r)) == to_z3(old["kind"]),
+                                           to_z3(N.arr_itemsize(r)) == to_z3(old["itemsize"]))),
+                ("C11: same unit", r.fields["units"] is old["units"]),
+                ("C16: same class", r.cls.name == a.self.cls.name),
+                ("C11: same name", r.fields.get("name") is old["name"]),
+                ("same shape", z3.And(to_z3(N.arr_scalar(r)) == to_z3(N.arr_scalar(a.self)),
+                                      to_z3(N.arr_size(r)) == to_z3(N.arr_size(a.self)))),
+                ] + unchanged("the original", a.self, old)
+
+    def canary(self, it, a, r, old):
+        return z3.BoolVal(False)
+
+
+class QuantityCopy(ArrayCopy):
+    tag = "quantity"
+    xcls = "unyt_quantity"
+
+
+ALL += ["ArrayCopy", "QuantityCopy"]
